@@ -6,7 +6,9 @@ import (
 	"fmt"
 	"os"
 	"os/exec"
+	"go/types"
 	"path/filepath"
+	"reflect"
 	"strings"
 	"time"
 )
@@ -210,6 +212,33 @@ func init() {
 		},
 		LevelNote: "Proved in the lock-invariant model: every access to the client's ticket cache map, session table map and to the mutable fields of a session happens with the object's mutex held (read lock for reads, write lock for writes), no mutex is re-acquired or released unheld; Cache.getEntry and session.tgtDetails return a ticket and a session key read in one critical section from one entry; randServOrder returns exactly the configured servers under keys 1..n and KDC / kpasswd look-up does not write to the configuration.",
 	}
+	props["C13"] = &PropDef{
+		Funcs: []string{
+			`types.SetFlag`, `types.UnsetFlag`, `types.IsFlagSet`,
+			`asn1tools.GetLengthFromASN`, `asn1tools.GetNumberBytesInLengthHeader`,
+		},
+		Kinds:           kinds(append([]string{"table"}, contractKinds...)...),
+		NeedObligations: true,
+		QuickTimeout:    20,
+		Extra: func(cc *checkCtx) []*Obligation {
+			out := cc.asn1TableCheck()
+			out = append(out, cc.boundedTest("asn1tools.MarshalLengthBytes", "asn1tools", "asn1len_test.go.txt", "^TestGowpBoundedASN1Length$",
+				"every length 0..2^24, values around each power of two from 2^24 to 2^55, agreement with the codec's own length octets; oracle: X.690 8.1.3 written out independently, round trip through GetLengthFromASN / GetNumberBytesInLengthHeader")...)
+			out = append(out, cc.boundedTest("messages round trip", "messages", "roundtrip_test.go.txt", "^TestGowpBoundedRoundTrip$",
+				"300 (thorough: 5000) pseudo-random values per type inside the RFC value ranges for Ticket, KDCReqBody, ASReq, TGSReq, ASRep, TGSRep, EncKDCRepPart, APReq, KRBError, KRBPriv, Authenticator: Unmarshal(Marshal(x)) == x, re-encoding reproduces the bytes, a ticket re-encoded after decryption is unchanged")...)
+			return out
+		},
+		Assumptions: []string{
+			"the reflection-driven ASN.1 codec (github.com/jcmturner/gofork/encoding/asn1) is trusted to encode and decode according to the struct tags; what is decided here is that the tags and field types are the RFC ones",
+			"the RFC field tables in /verif/spec/asn1_tables.txt were written from the ASN.1 modules of RFC 4120, RFC 4178, RFC 3244 and RFC 6806 (manual transcription, part of the trusted base)",
+		},
+		NotDecided: []string{
+			"decode(encode(x)) == x and byte-exact re-encoding for all values: covered by the bounded round-trip stand-in only (random values per type), not proved",
+			"MarshalLengthBytes for all lengths: bounded stand-in (exhaustive to 2^24 plus boundaries); its loop needs modular arithmetic with a symbolic modulus",
+			"application tag numbers added by AddASNAppTag at each call site, SPNEGO/GSS framing bytes (those are C17 and the decoders' safety C04)",
+		},
+		LevelNote: "Proved: KerberosFlags bit numbering (flag i = bit i from the most significant bit of the first octet, RFC 4120 5.2.8) for IsFlagSet, and that SetFlag / UnsetFlag change exactly that flag and keep at least 32 bits. Decided exactly over the current source (table obligations): every field of every struct handed to the ASN.1 codec (44 structs of RFC 4120 / 4178 / 3244 / 6806) carries the RFC's context tag number, EXPLICIT tagging, OPTIONAL-ness, GeneralString / GeneralizedTime typing, and an integer type wide enough for the RFC range (UInt32 needs more than 32 bits). Bounded stand-ins (not proofs): DER length octets exhaustive to 2^24, message round trips.",
+	}
 	props["C17"] = &PropDef{
 		Funcs: []string{
 			`(*gssapi.WrapToken).Marshal`, `(*gssapi.WrapToken).Unmarshal`, `(*gssapi.WrapToken).computeCheckSum`, `(*gssapi.WrapToken).Verify`,
@@ -326,4 +355,144 @@ func (cc *checkCtx) boundedTest(name, pkgRel, file, run, bound string) []*Obliga
 		return nil
 	}
 	return []*Obligation{{Fn: name, Name: name + "#bounded", Kind: "bounded", Desc: "bounded stand-in " + name + " (" + bound + ")", Status: "failed", Raw: s}}
+}
+
+// asn1TableCheck compares the asn1 struct tags and field types of the structs handed to the ASN.1 codec with the
+// RFC field tables in /verif/spec/asn1_tables.txt. It is an exact decision over the current source (kind "table"):
+// one obligation per field listed in the table or tagged in the code.
+func (cc *checkCtx) asn1TableCheck() []*Obligation {
+	var out []*Obligation
+	mk := func(name, desc string, ok bool, why string) {
+		o := &Obligation{Fn: "asn1-table", Name: "table:" + name, Kind: "table", Desc: desc, Status: "discharged", Solver: "table"}
+		if !ok {
+			o.Status, o.Raw = "failed", why
+		}
+		out = append(out, o)
+	}
+	b, err := os.ReadFile(filepath.Join(verifDir, "spec", "asn1_tables.txt"))
+	if err != nil {
+		mk("asn1_tables.txt", "RFC table readable", false, err.Error())
+		return out
+	}
+	type row struct {
+		field, tag string
+		attrs      map[string]bool
+		minBits    int
+	}
+	var curName string
+	tables := map[string][]row{}
+	var order []string
+	for _, l := range strings.Split(string(b), "\n") {
+		if i := strings.Index(l, "#"); i >= 0 {
+			l = l[:i]
+		}
+		if strings.TrimSpace(l) == "" {
+			continue
+		}
+		if !strings.HasPrefix(l, " ") {
+			curName = strings.TrimSpace(l)
+			order = append(order, curName)
+			continue
+		}
+		fs := strings.Fields(l)
+		r := row{field: fs[0], tag: fs[1], attrs: map[string]bool{}}
+		for _, a := range fs[2:] {
+			if strings.HasPrefix(a, "int>=") {
+				fmt.Sscanf(a, "int>=%d", &r.minBits)
+			} else {
+				r.attrs[a] = true
+			}
+		}
+		tables[curName] = append(tables[curName], r)
+	}
+	for _, tn := range order {
+		T := cc.P.lookupType(tn)
+		if T == nil {
+			mk(tn, "struct "+tn+" exists", false, "type not found in the current source")
+			continue
+		}
+		st, ok := types.Unalias(T).Underlying().(*types.Struct)
+		if !ok {
+			mk(tn, "struct "+tn+" is a struct", false, "not a struct")
+			continue
+		}
+		seen := map[string]bool{}
+		for _, r := range tables[tn] {
+			seen[r.field] = true
+			idx := -1
+			for i := 0; i < st.NumFields(); i++ {
+				if st.Field(i).Name() == r.field {
+					idx = i
+				}
+			}
+			name := tn + "." + r.field
+			if idx < 0 {
+				mk(name, "field of the RFC table exists", false, "field missing in the struct")
+				continue
+			}
+			tag := reflect.StructTag(st.Tag(idx)).Get("asn1")
+			parts := map[string]bool{}
+			tagNo := "-"
+			for _, p := range strings.Split(tag, ",") {
+				p = strings.TrimSpace(p)
+				if strings.HasPrefix(p, "tag:") {
+					tagNo = strings.TrimPrefix(p, "tag:")
+				} else if p != "" {
+					parts[p] = true
+				}
+			}
+			var bad []string
+			if tagNo != r.tag {
+				bad = append(bad, "context tag "+tagNo+", RFC "+r.tag)
+			}
+			if r.tag != "-" && !parts["explicit"] {
+				bad = append(bad, "not EXPLICIT")
+			}
+			if parts["optional"] != r.attrs["opt"] {
+				bad = append(bad, fmt.Sprintf("optional=%v, RFC optional=%v", parts["optional"], r.attrs["opt"]))
+			}
+			if parts["generalstring"] != r.attrs["gstr"] {
+				bad = append(bad, fmt.Sprintf("generalstring=%v, RFC KerberosString=%v", parts["generalstring"], r.attrs["gstr"]))
+			}
+			for _, other := range []string{"ia5", "printable", "utf8", "numeric"} {
+				if parts[other] {
+					bad = append(bad, "string type "+other+" (Kerberos strings are GeneralString)")
+				}
+			}
+			if parts["generalized"] != r.attrs["time"] {
+				bad = append(bad, fmt.Sprintf("generalized=%v, RFC KerberosTime=%v", parts["generalized"], r.attrs["time"]))
+			}
+			ft := types.Unalias(st.Field(idx).Type())
+			if r.attrs["raw"] != strings.HasSuffix(types.TypeString(ft, nil), "asn1.RawValue") {
+				bad = append(bad, "raw-value mismatch")
+			}
+			if r.minBits > 0 {
+				bits := 0
+				if bt, ok := ft.Underlying().(*types.Basic); ok {
+					switch bt.Kind() {
+					case types.Int, types.Int64, types.Uint64, types.Uint:
+						bits = 64
+					case types.Int32:
+						bits = 32
+					case types.Uint32:
+						bits = 33
+					case types.Int16:
+						bits = 16
+					case types.Int8:
+						bits = 8
+					}
+				}
+				if bits < r.minBits {
+					bad = append(bad, fmt.Sprintf("Go type %s holds %d bits, the RFC range needs %d", ft, bits, r.minBits))
+				}
+			}
+			mk(name, "asn1 tag and type of "+name+" match the RFC table ("+tag+")", len(bad) == 0, strings.Join(bad, "; "))
+		}
+		for i := 0; i < st.NumFields(); i++ {
+			if !seen[st.Field(i).Name()] && strings.Contains(reflect.StructTag(st.Tag(i)).Get("asn1"), "tag:") {
+				mk(tn+"."+st.Field(i).Name(), "tagged field is in the RFC table", false, "field carries a context tag but is not in the RFC table")
+			}
+		}
+	}
+	return out
 }
